@@ -6,7 +6,8 @@ import (
 )
 
 // C19 alphabet: how a goroutine is launched x how (if at all) the launched function recovers.
-var GoForms = []string{"named", "closure", "methodV", "methodP", "boundMV", "fvar", "ffield", "iface", "namedTwice", "nestedClosure"}
+var GoForms = []string{"named", "closure", "methodV", "methodP", "boundMV", "fvar", "ffield", "iface", "namedTwice", "nestedClosure",
+	"inHelper", "inMethod", "fromGoroutine", "generic", "closureCapturing", "inDeferred"}
 var RecForms = []string{"none", "deferClosure", "deferNamed", "deferMethod", "deferIndirect", "recoverNotDeferred", "deferOneBranch",
 	"deferClosureVar", "deferNested", "deferRecoverDirect"}
 
@@ -47,7 +48,30 @@ type GoPanicCase struct {
 	Subject
 	MustReport bool
 	Entries    []string // acceptable reported function names (any one suffices)
+	// AnSrc / LibPath / LibSrc: for the package-path cells the ANALYSED program keeps the launched function and the go
+	// statement in a library package with import path LibPath (main only calls it); Subject.Src, the native rendering, is
+	// the same code inside package main (import paths do not exist at run time).
+	AnSrc, LibPath, LibSrc string
 }
+
+// StdTopLevel are the first path components of the packages the may-panic tool leaves out (the standard library; plus
+// golang.org/x). A package is excluded only if its path IS such a name or continues it with "/": LibPaths are paths that
+// merely resemble them and therefore must be analysed.
+var StdTopLevel = []string{"archive", "bufio", "builtin", "bytes", "cmd", "compress", "container", "context", "crypto", "database",
+	"debug", "encoding", "errors", "expvar", "flag", "fmt", "go", "hash", "html", "image", "index", "internal", "io", "log", "math",
+	"mime", "net", "os", "path", "plugin", "reflect", "regexp", "runtime", "sort", "strconv", "strings", "sync", "syscall", "text",
+	"time", "unicode", "unsafe"}
+
+func LibPaths() []string {
+	var out []string
+	for _, e := range StdTopLevel {
+		out = append(out, e+"util/w", e+"-x")
+	}
+	return append(out, "gopkg.in/w.v1", "golang.org/xtra/w", "golang.org", "example.com/io/w", "example.com/internal/w", "w/io")
+}
+
+var libRecForms = []string{"none", "deferIndirect", "deferClosure", "deferNested"}
+
 
 func GoPanicFamily() []GoPanicCase {
 	var out []GoPanicCase
@@ -56,7 +80,26 @@ func GoPanicFamily() []GoPanicCase {
 			out = append(out, goPanicCase(g, r))
 		}
 	}
+	for _, lp := range LibPaths() {
+		for _, r := range libRecForms {
+			out = append(out, goPanicLibCase(lp, r))
+		}
+	}
 	return out
+}
+
+func goPanicLibCase(lp, r string) GoPanicCase {
+	helpers := "func recoverer() { recover() }\nfunc callsRecoverer() { recoverer() }\ntype RM struct{}\nfunc (RM) Rec() { recover() }\n"
+	body := recStmts(r) + "\trt.Boom()\n"
+	code := helpers + "func Worker() {\n" + body + "}\nfunc Spawn() {\n\tgo Worker()\n}\n"
+	native := shapeHeader + code + "func main() {\n\tSpawn()\n\trt.Wait()\n}\n"
+	lib := "package w\n\nimport \"" + RTPath + "\"\n\nvar _ = rt.Cond\n\n" + code
+	an := "package main\n\nimport \"" + RTPath + "\"\nimport w \"" + lp + "\"\n\nvar _ = rt.Cond\n\nfunc main() {\n\tw.Spawn()\n\trt.Wait()\n}\n"
+	return GoPanicCase{
+		Subject:    Subject{Sig: fmt.Sprintf("gopanic[lib:%s,%s]", lp, r), Atoms: []string{"go:lib", "libpath:" + lp, "rec:" + r, "family:gopanic"}, Src: native},
+		MustReport: recMustReport[r], Entries: []string{"Worker", lp + ".Worker"},
+		AnSrc:      an, LibPath: lp, LibSrc: lib,
+	}
 }
 
 func goPanicCase(g, r string) GoPanicCase {
@@ -106,6 +149,34 @@ func goPanicCase(g, r string) GoPanicCase {
 		sb.WriteString("type WT struct{}\nfunc (WT) Run() {\n" + body + "}\n")
 		launch = "\tvar i IW = WT{}\n\tgo i.Run()\n"
 		entries = []string{"(WT).Run"}
+	case "inHelper":
+		// the go statement is in a function other than main
+		sb.WriteString("func worker() {\n" + body + "}\nfunc spawn() {\n\tgo worker()\n}\n")
+		launch = "\tspawn()\n"
+		entries = []string{"worker"}
+	case "inMethod":
+		// the go statement is in a method, launching another method of the same receiver
+		sb.WriteString("type WT struct{ x int }\nfunc (w *WT) Run() {\n" + body + "}\nfunc (w *WT) Start() {\n\tgo w.Run()\n}\n")
+		launch = "\t(&WT{}).Start()\n"
+		entries = []string{"(*WT).Run"}
+	case "fromGoroutine":
+		// a (recovering) goroutine launches the panicking one
+		sb.WriteString("func worker() {\n" + body + "}\n")
+		launch = "\tgo func() {\n\t\tdefer func() { recover() }()\n\t\tgo worker()\n\t}()\n"
+		entries = []string{"worker"}
+	case "generic":
+		sb.WriteString("func gworker[T any]() {\n" + body + "}\n")
+		launch = "\tgo gworker[int]()\n"
+		entries = []string{"gworker[int]", "gworker"}
+	case "closureCapturing":
+		// the closure captures a variable, so the launched value is a MakeClosure with bindings
+		launch = "\tn := 0\n\tgo func() {\n\t\tn++\n" + indent(strings.TrimRight(body, "\n"), 1) + "\n\t}()\n"
+		entries = []string{"main$1"}
+	case "inDeferred":
+		// the go statement is in a deferred closure of main
+		sb.WriteString("func worker() {\n" + body + "}\n")
+		launch = "\tdefer func() {\n\t\tgo worker()\n\t\trt.Wait()\n\t}()\n"
+		entries = []string{"worker"}
 	default:
 		panic(g)
 	}
